@@ -197,3 +197,12 @@ func checkOpaque(e *Env, built []string) {
 		r.Unknown("core.opaque", f, "", "the analysis reads Go source and trusts the released dependencies: "+f+" is outside what it can vouch for")
 	}
 }
+
+// RunAll is what one check of a property consists of: the property's rules (with the properties it requires) on
+// linux/amd64, repeated under every Linux port that builds other files (skip: targets analysed anyway).
+func RunAll(e *Env, prop string, spec *Spec, skip []string) {
+	RunSpec(e, prop, spec)
+	if prop != "C19" { // C19 analyses every target anyway
+		RunOtherFileSets(e, prop, spec, skip)
+	}
+}
